@@ -1174,13 +1174,15 @@ impl<C: Config, Q: Query> Snapshot<C, Q> {
         mut self,
         mut backward_projection_lock_guard: BackwardProjectionLockGuard<C>,
     ) {
-        let mut tx = self.engine().new_write_transaction();
         let engine = self.engine().clone();
         let query_id = *self.query_id();
 
         self.upgrade_to_exclusive().await;
 
         async move {
+            // the write batch must not exist across the cancellable await above
+            let mut tx = engine.new_write_transaction();
+
             engine
                 .computation_graph
                 .database
